@@ -55,6 +55,8 @@ pub struct PortState {
     pub fail_set_baud: Option<serial_core::ErrorKind>,
     pub fail_write_settings: Option<serial_core::ErrorKind>,
     pub fail_set_timeout: Option<serial_core::ErrorKind>,
+    /// None = the injected failures are permanent; Some(n) = only the first n failing calls fail (a transient fault)
+    pub fail_budget: Option<usize>,
 
     pub written: Vec<u8>,
     pub write_calls: Vec<CallRecord>,
@@ -87,6 +89,18 @@ pub fn weird_settings() -> PortSettings {
 }
 
 impl PortState {
+    /// consume one unit of the failure budget; false = the budget is used up, the call succeeds
+    fn may_fail(&mut self) -> bool {
+        match self.fail_budget.as_mut() {
+            None => true,
+            Some(0) => false,
+            Some(n) => {
+                *n -= 1;
+                true
+            }
+        }
+    }
+
     pub fn new(tape: Vec<u8>) -> Self {
         PortState {
             settings: weird_settings(),
@@ -98,6 +112,7 @@ impl PortState {
             fail_set_baud: None,
             fail_write_settings: None,
             fail_set_timeout: None,
+            fail_budget: None,
             written: vec![],
             write_calls: vec![],
             write_script: vec![],
@@ -256,15 +271,16 @@ impl SerialDevice for TestPort {
     fn read_settings(&self) -> serial_core::Result<TestSettings> {
         let mut s = self.st.borrow_mut();
         s.settings_reads += 1;
-        if let Some(k) = s.fail_read_settings {
+        if let Some(k) = s.fail_read_settings.filter(|_| s.may_fail()) {
             return Err(serial_core::Error::new(k, "injected read_settings fault"));
         }
-        Ok(TestSettings { inner: s.settings, fail_baud: s.fail_set_baud })
+        let fail_baud = s.fail_set_baud.filter(|_| s.may_fail());
+        Ok(TestSettings { inner: s.settings, fail_baud })
     }
 
     fn write_settings(&mut self, settings: &TestSettings) -> serial_core::Result<()> {
         let mut s = self.st.borrow_mut();
-        if let Some(k) = s.fail_write_settings {
+        if let Some(k) = s.fail_write_settings.filter(|_| s.may_fail()) {
             return Err(serial_core::Error::new(k, "injected write_settings fault"));
         }
         s.settings = settings.inner;
@@ -278,7 +294,7 @@ impl SerialDevice for TestPort {
 
     fn set_timeout(&mut self, timeout: Duration) -> serial_core::Result<()> {
         let mut s = self.st.borrow_mut();
-        if let Some(k) = s.fail_set_timeout {
+        if let Some(k) = s.fail_set_timeout.filter(|_| s.may_fail()) {
             return Err(serial_core::Error::new(k, "injected set_timeout fault"));
         }
         s.timeout = Some(timeout);
